@@ -118,6 +118,12 @@ CORRUPTORS = {"Trace_Ffi": _corrupt_ffi, "Trace_Conc": _corrupt_conc, "Trace_Tot
 
 
 def _vc_lang(v):
+    if v.get("ev") == "scan":
+        if v.get("exp") == "reject":       # claim that the rejected literal behaves like the raw pattern `a`
+            v["exp"] = "as-raw"
+            v["pat"] = [97]
+            return True
+        return False
     if v.get("ok") and v.get("runs"):
         r0 = v["runs"][0]
         if isinstance(r0.get("res"), bool):
@@ -325,6 +331,7 @@ CHECKS = {
         assumptions=["std DefaultHasher is used as the Hash consumer"],
         stages=[
             mc("aliases", "MC_C07.tla", "MC_C07.cfg"),
+            mc("quoted-regex-literals", "MC_C11.tla", "MC_C11_scan.cfg", workers=4),
             lang("canon", "c07", 2500, 80000, ["--nctx", "1", "--depth", "3", "--mutate", "10"], shards=SH),
             lang("texts", "text", 1500, 60000, ["--nctx", "2", "--depth", "3", "--repct", "10"], shards=SH, seed_off=3),
         ],
@@ -390,6 +397,7 @@ CHECKS = {
             mc("regex-level1", "MC_C11.tla", "MC_C11_regex1.cfg"),
             mc("regex-level2", "MC_C11.tla", dict(quick=None, thorough="MC_C11_regex2.cfg")),
             mc("wildcards", "MC_C11.tla", dict(quick="MC_C11_wild4.cfg", thorough="MC_C11_wild5.cfg")),
+            mc("quoted-literal-scanner", "MC_C11.tla", "MC_C11_scan.cfg", workers=4),
             lang("patterns", "c11", 4000, 160000, ["--nctx", "8"], shards=SH),
         ],
     ),
